@@ -6,7 +6,7 @@ it is cross-checked against CPython by pyvc/crosscheck.py.  Library functions th
 every use is recorded in the run's assumption list.
 """
 from __future__ import annotations
-import ast, z3
+import ast, os, z3
 from .core import *
 from . import core
 from . import objects as O
@@ -158,6 +158,10 @@ def get_item(I, cont, key):
             return I.call(gi, [key])
     if t == "obj":
         return I.spec.obj_getitem(I, cont, key)
+    if os.environ.get("PYVC_DEBUG2"):
+        print("SUBSCRIPT-FAIL", str(cont)[:200].replace("\n", " "), "mv", st.model_value(cont), "validref", st.valid(V.is_ref(cont)))
+        for p_ in st.pc[-6:]:
+            print("   PC", str(p_)[:500].replace("\n", " "))
     raise OutsideSubset(f"subscript on value of tag {t}")
 
 
@@ -685,6 +689,12 @@ def iterate_seq(I, it, full=False):
         return I.spec.iterate_obj(I, it)
     if t == "none":
         I.raise_(TypeError, origin=("iter-none",))
+    if os.environ.get("PYVC_DEBUG2"):
+        print("ITER-FAIL", str(it)[:300].replace("\n", " "), "mv", st.model_value(it), "validref", st.valid(V.is_ref(it)))
+        from .state import has_quantifier as _hq
+        print("   dropped:", sum(1 for p_ in st.pc if _hq(p_)), "of", len(st.pc))
+        for p_ in st.pc[-8:]:
+            print("   PC", "Q" if _hq(p_) else " ", str(p_)[:300].replace("\n", " "))
     raise OutsideSubset(f"iteration over value of tag {t}")
 
 
@@ -963,19 +973,37 @@ def _symbolic_comp(I, e, env, inner, kind, it):
     if kind == "list" and not g.ifs and _allocates(e.elt):
         return _opaque_allocating_map(I, e, inner, seq, xb_range, it)
     if kind in ("list", "gen") and not g.ifs:
-        npc = len(st.pc)
+        # element-wise map: evaluate the element expression once for the element at an arbitrary index
+        xi = fresh("ci", I_)
+        src_l = I.lower(it)
         if xb_range is not None:
-            xb = xb_range
-        I.assign_target(g.target, xb, inner)
-        elt = pure_eval(I, lambda: I.lift(I.ev(e.elt, inner)))
-        if st.pc[npc:]:
+            xe = xb_range
+            guard = z3.And(xi >= 0, xi < seq.n, V.i(xb_range) == it.base[0] + xi)
+        else:
+            xe = seq.at(xi)
+            guard = z3.And(xi >= 0, xi < seq.n)
+        st.pc.append(guard)
+        npc = len(st.pc)
+        try:
+            if xb_range is None and is_v(src_l) and I.tag(src_l, cheap=True) == "ref" and I.kind(src_l) == K_LIST:
+                st.list_read(src_l, xi)
+            if xb_range is None:
+                xe = st.wf_read(xe)
+            I.assign_target(g.target, xe, inner)
+            elt = pure_eval(I, lambda: I.lift(I.ev(e.elt, inner)))
             extra = st.pc[npc:]
-            del st.pc[npc:]
-            raise OutsideSubset("comprehension body adds assumptions")
+        finally:
+            del st.pc[npc - 1:]
         i = z3.Const("i!map", I_)
-        out = Sq(z3.Lambda([i], z3.substitute(elt, (xb, seq.at(i)))), seq.n)
+        if xb_range is not None:
+            elt = z3.substitute(elt, (xb_range, V.int(it.base[0] + xi)))
+            extra = [z3.substitute(x_, (xb_range, V.int(it.base[0] + xi))) for x_ in extra]
+        if extra:
+            st.assume(z3.ForAll([i], z3.Implies(z3.And(i >= 0, i < seq.n), z3.substitute(z3.And(extra), (xi, i)))))
+        out = Sq(z3.Lambda([i], z3.substitute(elt, (xi, i))), seq.n)
         if kind == "gen":
-            return HView("seqpred", (seq, xb, elt, out))
+            xb2 = fresh("cx")
+            return HView("seqpred", (seq, xb2, z3.substitute(elt, (seq.at(xi), xb2)) if xb_range is None else elt, out))
         return st.new_list(out)
     if kind == "list" and g.ifs:
         # filtered list: a fresh sequence whose element set is the filtered source; empty iff nothing passes
@@ -1013,7 +1041,12 @@ def _symbolic_comp(I, e, env, inner, kind, it):
 
 
 def _allocates(expr):
-    return any(isinstance(n, (ast.Dict, ast.List, ast.Set, ast.ListComp, ast.DictComp, ast.SetComp)) for n in ast.walk(expr))
+    for n in ast.walk(expr):
+        if isinstance(n, (ast.Dict, ast.List, ast.Set, ast.ListComp, ast.DictComp, ast.SetComp)):
+            return True
+        if isinstance(n, ast.Call) and isinstance(n.func, ast.Name) and n.func.id in ("dict", "list", "set"):
+            return True
+    return False
 
 
 def _opaque_allocating_map(I, e, inner, seq, xb_range, it):
@@ -1024,6 +1057,7 @@ def _opaque_allocating_map(I, e, inner, seq, xb_range, it):
     st = I.st
     g = e.generators[0]
     i = fresh("ci", I_)
+    src_l = I.lower(it)
     x = xb_range if xb_range is not None else st.wf_read(seq.at(i))
     snap = st.snapshot()
     envsnap = dict(inner.vars)
@@ -1040,9 +1074,18 @@ def _opaque_allocating_map(I, e, inner, seq, xb_range, it):
         def choose(self, n, label=""):
             raise OutsideSubset(f"allocating comprehension body forks ({label})")
     st.oracle = Strict()
+    content = None
     try:
+        if is_v(src_l) and I.tag(src_l, cheap=True) == "ref" and I.kind(src_l) == K_LIST:
+            st.list_read(src_l, i)
         I.assign_target(g.target, x, inner)
-        I.ev(e.elt, inner)
+        r_ = I.ev(e.elt, inner)
+        # shallow content of the produced container, as terms over the element (only for a fresh dict)
+        if is_v(r_) and I.tag(r_) == "ref" and I.kind(r_) == K_DICT:
+            rs = z3.simplify(V.id(r_))
+            if z3.is_int_value(rs) and rs.as_long() > snap[2]:
+                h_ = st.h
+                content = (z3.simplify(z3.Select(h_.ddom, rs)), z3.simplify(z3.Select(h_.dval, rs)), z3.simplify(z3.Select(h_.dlen, rs)))
     except PyRaise:
         raise OutsideSubset("allocating comprehension body may raise")
     finally:
@@ -1051,14 +1094,37 @@ def _opaque_allocating_map(I, e, inner, seq, xb_range, it):
         inner.vars = envsnap
     out = Sq(fresh("alloc_map", VArr), seq.n)
     j = z3.Int("j!am")
+    j2 = z3.Int("j2!am")
     lo_id = st.nalloc
     st.nalloc += 1000
     st.assume(forall([j], z3.Implies(z3.And(j >= 0, j < seq.n), z3.And(V.is_ref(out.at(j)), V.id(out.at(j)) > lo_id, V.id(out.at(j)) <= st.nalloc)),
                      [out.at(j)]))
+    st.assume(z3.ForAll([j, j2], z3.Implies(z3.And(j >= 0, j < j2, j2 < seq.n), out.at(j) != out.at(j2))))
     # the fresh objects' contents are unconstrained: havoc the heap region above lo_id
     from .interp import _havoc_heap, _framed_havoc
     new = _havoc_heap(st.h, f"AM{lo_id}", st.nalloc)
     st.h = _framed_havoc(st.h, new, lo_id, [])
+    if content is not None and xb_range is None:
+        # element-wise content of the fresh dicts: the scratch evaluation with the element replaced by seq[j]
+        cd, cv, cl = content
+        sub = lambda t: z3.substitute(t, (i, j))
+        h_ = st.h
+        oid = V.id(out.at(j))
+        inr = z3.And(j >= 0, j < seq.n)
+        elem_fact = lambda jj: z3.substitute(z3.And(z3.Select(h_.kind, oid) == K_DICT, z3.Select(h_.ddom, oid) == sub(cd),
+                                                    z3.Select(h_.dval, oid) == sub(cv), z3.Select(h_.dlen, oid) == sub(cl)), (j, jj))
+        st.assume(forall([j], z3.Implies(inr, elem_fact(j)), [out.at(j)]))
+        res = st.new_list(out)
+        prior = list(st.list_instantiators)
+        src_id = V.id(src_l) if is_v(src_l) else None
+
+        def inst(lid, idx, res=res, n_=seq.n):
+            facts = [elem_fact(idx), V.is_ref(out.at(idx)), V.id(out.at(idx)) > lo_id]
+            if src_id is not None:
+                facts += [f_(src_id, idx) for f_ in prior]      # what is known about the source element carries over
+            return z3.Implies(z3.And(lid == V.id(res), idx >= 0, idx < n_), z3.And(facts))
+        st.list_instantiators.append(inst)
+        return res
     return st.new_list(out)
 
 
